@@ -1,7 +1,8 @@
 """C35  Errors point at the template line that caused them.
 
 Proof of mechanism (bookkeeping arithmetic) + bounded stand-ins:
-  C35.lexer.lineno      = the LINENO_TASKS of contracts/c39.py (loop invariant of Lexer.tokeniter), when available.
+  C35.lexer.lineno      = the LINENO_TASKS of contracts/c39.py (loop invariant of Lexer.tokeniter), when available: quick tier a
+                        representative subset (default configuration), thorough tier all of them; C39 itself carries all.
   C35.parser.lineno     static analysis of the REAL Parser.parse_* bodies: every `lineno=` handed to a node constructor is
                         the line of a token of that construct, read from the stream BEFORE the stream is advanced past it.
   C35.codegen.newline   VC on CodeGenerator.newline (exactly the contract pyvc/emit.py assumes).
@@ -25,7 +26,7 @@ import traceback
 
 import z3
 
-from pyvc.contract import VC, Res, FnTask
+from pyvc.contract import VC, Res, FnTask, Task
 from pyvc.values import State, Sym, Ref, HObj, HList, SSeq, Exc, Event, Unsupported, sym, fresh, fresh_name, fresh_arr
 from pyvc.smt import to_term, model_value
 from pyvc.interp import Raised
@@ -1501,7 +1502,33 @@ def other_tasks():
     return ts
 
 
-TASKS = codegen_tasks() + [CorrespondingLineno()] + other_tasks() + list(_LEXER_LINENO_TASKS or [])
+class LexerLineno(Task):
+    """proxy for one obligation set of contracts/c39.py (Lexer.tokeniter line counting).  C39 itself carries all of them; here the quick
+    tier runs a representative subset (default configuration: every lexer state, the variable branch of the root rule, loop
+    initialisation) and the rest only in the thorough tier.  A proxy, not a flag on the shared task object, so that C39's own run
+    in the same process is unaffected."""
+
+    QUICK = ("default:root[0].variable_begin", "default:root[1]", "default:comment_begin", "default:block_begin", "default:variable_begin",
+             "default:linestatement_begin", "default:linecomment_begin", "tokeniter.init")
+
+    def __init__(self, inner):
+        self.inner = inner
+        self.prop = PROP
+        self.name = inner.name
+        self.kind = inner.kind
+        self.thorough_only = not any(q in inner.name for q in self.QUICK)
+        fk = getattr(inner, "finding_key", None)
+        if fk:
+            self.finding_key = fk
+
+    def run(self, tier, seed):
+        return self.inner.run(tier, seed)
+
+    def replay(self, witness):
+        return self.inner.replay(witness)
+
+
+TASKS = codegen_tasks() + [CorrespondingLineno()] + other_tasks() + [LexerLineno(t) for t in (_LEXER_LINENO_TASKS or [])]
 
 META = {
     "level": "other",
